@@ -539,6 +539,9 @@ struct Env<'a> {
 #[derive(Clone, Copy, PartialEq, Eq, Debug)]
 enum Ctx {
     Script,
+    /// script context on an interpreter that initialised another transaction before
+    /// (the same one with its inputs rotated: contract inputs sit at other indices)
+    ScriptReused,
     Verify(usize),
     Estimate(usize),
 }
@@ -547,13 +550,14 @@ impl Ctx {
     fn name(self) -> &'static str {
         match self {
             Ctx::Script => "script",
+            Ctx::ScriptReused => "script-reused",
             Ctx::Verify(_) => "verify",
             Ctx::Estimate(_) => "estimate",
         }
     }
     fn pred(self) -> Option<usize> {
         match self {
-            Ctx::Script => None,
+            Ctx::Script | Ctx::ScriptReused => None,
             Ctx::Verify(i) | Ctx::Estimate(i) => Some(i),
         }
     }
@@ -927,7 +931,7 @@ impl View {
             5 => must(Ans::Val(env.tx_offset), "-"),
             6 => must(Ans::Ptr { addr: Some(32), bytes: env.base.to_vec() }, "-"),
             7 => match ctx {
-                Ctx::Script => must(Ans::Val(env.gas_price), "-"),
+                Ctx::Script | Ctx::ScriptReused => must(Ans::Val(env.gas_price), "-"),
                 _ => fail(&[P::CanNotGetGasPriceInPredicate], "-"),
             },
             8 => match self.expected_owner() {
@@ -1315,17 +1319,36 @@ where
             for (n, k) in pred_inputs.iter().enumerate().take(3) {
                 ctxs.push(if (n + *k) % 2 == 0 { Ctx::Verify(*k) } else { Ctx::Estimate(*k) });
             }
-            ctxs.push(Ctx::Script);
+            ctxs.push(if checked.transaction().inputs().len() >= 2 && rng.bool() { Ctx::ScriptReused } else { Ctx::Script });
         }
     }
     for ctx in ctxs {
         match ctx {
-            Ctx::Script => {
+            Ctx::Script | Ctx::ScriptReused => {
                 let mut vm: Interpreter<MemoryInstance, MemoryStorage, Tx> = Interpreter::with_storage(
                     MemoryInstance::new(),
                     MemoryStorage::new(BlockHeight::from(env.height), Default::default()),
                     InterpreterParams::new(env.gas_price, env.params),
                 );
+                if ctx == Ctx::ScriptReused {
+                    // predecessor on the same interpreter: the same transaction with its
+                    // inputs rotated by one (Output::Contract indices follow)
+                    let mut t = checked.transaction().clone();
+                    let n = t.inputs().len();
+                    t.inputs_mut().rotate_left(1);
+                    for o in t.outputs_mut().iter_mut() {
+                        if let Output::Contract(c) = o {
+                            c.input_index = ((c.input_index as usize + n - 1) % n) as u16;
+                        }
+                    }
+                    match guarded(|| t.into_checked_basic(BlockHeight::from(env.height), env.params).map_err(|e| format!("{e:?}"))) {
+                        Ok(Ok(pre)) => match guarded(|| vm.init_script(pre.test_into_ready()).map_err(|e| format!("{e:?}"))) {
+                            Ok(Ok(())) => rep.count("script_ctx_on_reused_interpreter"),
+                            _ => rep.count("predecessor_not_initialised"),
+                        },
+                        _ => rep.count("predecessor_rejected_by_checks"),
+                    }
+                }
                 let ready = checked.clone().test_into_ready();
                 match timed(rep, "t_us_init", |_| guarded(|| vm.init_script(ready).map_err(|e| format!("{e:?}")))) {
                     Ok(Ok(())) => {}
@@ -1689,6 +1712,7 @@ fn run_replay(rec: &Value) -> Report {
         let k = rec.get("pred_idx").and_then(|v| v.as_u64()).unwrap_or(0) as usize;
         let ctx = match rec.get("ctx")?.as_str()? {
             "script" => Ctx::Script,
+            "script-reused" => Ctx::ScriptReused,
             "verify" => Ctx::Verify(k),
             "estimate" => Ctx::Estimate(k),
             _ => return None,
